@@ -10,12 +10,10 @@ open ASV
 theorem adjustFeature_same (rd : RegionData) (L : Int) (rn : Renumbering) (f g : BioFeature)
     (h : adjustFeature rd L rn f = .ok g) : g.tag = f.tag ∧ g.type = f.type ∧ g.loc = f.loc := by
   unfold adjustFeature at h
-  simp only [bind, Except.bind, pure, Except.pure, adjustProtocluster] at h
+  simp only [adjustProtocluster] at h
   repeat' split at h
   all_goals (cases h)
   all_goals exact ⟨rfl, rfl, rfl⟩
-
-
 
 theorem shiftLoc_zero (l : Loc) : shiftLoc l 0 = l := by
   cases l with
@@ -96,6 +94,7 @@ theorem crossStep_some (rd : RegionData) (L n : Int) (f p g : BioFeature) (h : c
       · injection h with h; injection h with h1 h2; cases h2
       · rename_i hk
         injection h with h; injection h with h1 h2; injection h2 with h2
+        simp only [Bool.or_eq_true, decide_eq_true_eq, not_or] at hk
         exact ⟨hb, l, hl, by omega, h2.symm⟩
   · injection h with h; injection h with h1 h2; cases h2
 
